@@ -334,6 +334,7 @@ pub fn catalogue() -> &'static Vec<Item> {
         add("disp-range-65536", "disposition role=receiver first=0 last=65535 settled=true (a range a frame could legitimately name)");
         add("disp-unknown-ids", "disposition role=receiver for delivery-ids 1000..1003 that were never sent");
         add("disp-first-gt-last", "disposition with first=10 last=2");
+        add("disp-wrapping-range", "dispositions (both roles, settled and unsettled) first=4294967295 last=0 and first=4294967294 last=1: short ranges that wrap the delivery-id space");
         add("disp-unmapped-channel", "disposition on channel 9 which has no session");
         // flows
         add("flow-unattached-handle", "flow with link credit for handle 77 which is not attached");
@@ -433,6 +434,12 @@ pub fn item_steps(idx: usize, env: &Env) -> Vec<Step> {
         "disp-range-65536" => vec![f(PCH, disp(LinkRole::Receiver, 0, Some(65535), true))],
         "disp-unknown-ids" => vec![f(PCH, disp(LinkRole::Receiver, 1000, Some(1003), true)), f(PCH, disp(LinkRole::Sender, 1000, Some(1003), false))],
         "disp-first-gt-last" => vec![f(PCH, disp(LinkRole::Receiver, 10, Some(2), true)), f(PCH, disp(LinkRole::Receiver, 10, Some(2), false))],
+        "disp-wrapping-range" => vec![
+            f(PCH, disp(LinkRole::Sender, u32::MAX, Some(0), false)),
+            f(PCH, disp(LinkRole::Receiver, u32::MAX, Some(0), false)),
+            f(PCH, disp(LinkRole::Sender, u32::MAX - 1, Some(1), true)),
+            f(PCH, disp(LinkRole::Receiver, u32::MAX, Some(0), true)),
+        ],
         "disp-unmapped-channel" => vec![f(9, disp(LinkRole::Receiver, 0, None, true))],
         "flow-unattached-handle" => {
             let mut fl = base_flow(env);
